@@ -142,6 +142,29 @@ fn verify_all<G: AffineRepr>(ch: &mut Child, env: &Env<G>, id: &str, fx: &Fixtur
 fn child_curve<G: AffineRepr>(ch: &mut Child, curve: &'static str, seed: u64, thorough: bool) {
     let env = Env::<G>::new(curve, 32);
     let fxs = fixtures::<G>(&env, 0xC08);
+    // replay of a fuzzer artefact: `fuzz|<target>|<hex of the input>`
+    if let Some(id) = ch.only.clone() {
+        if let Some(rest) = id.strip_prefix("fuzz|") {
+            let mut it = rest.splitn(2, '|');
+            let target = it.next().unwrap_or("").to_string();
+            let data = crate::sc::unhex(it.next().unwrap_or(""));
+            let skip = match target.as_str() {
+                "decode" => 0,
+                "decode_verify" => 1,
+                _ => 2,
+            };
+            let body = if data.len() >= skip { &data[skip..] } else { &data[..] };
+            let _ = writeln!(ch.out, "CASE {}", id);
+            ch.executed += 1;
+            if let Some(Ok(p)) = ch.call(&id, "from_bytes", body.len(), || R1CSProof::<G>::from_bytes(body)) {
+                for (fi, fx) in fxs.iter().enumerate() {
+                    let companion = &fxs[(fi + 1) % fxs.len()];
+                    verify_all(ch, &env, &id, fx, companion, &p, "fuzz-replay");
+                }
+            }
+            return;
+        }
+    }
     let maxlr = if thorough { 9 } else { 7 };
     // ---- part 1: exhaustive (|L|,|R|) grid x point/scalar patterns x circuits, single and batch
     for (fi, fx) in fxs.iter().enumerate() {
